@@ -254,6 +254,8 @@ def run(ctx):
                     # the same against a broker that only speaks OffsetFetch v1: group-level errors come as
                     # per-partition error codes there (v2+ brokers put them into the top-level field only)
                     plans.append(dict(base, faults=fs, wait=5.0, api_versions={"OffsetFetch": [1, 1]}, of_version=1))
+                    # ... and against one that speaks v2 at most (the first version with the top-level field)
+                    plans.append(dict(base, faults=fs, wait=5.0, api_versions={"OffsetFetch": [1, 2]}, of_version=2))
         if ctx.thorough:
             for ci, cfg in enumerate(cfgs):
                 if cfg["group"]:
